@@ -267,12 +267,20 @@ impl Findings {
     }
     /// Is there a `known` (not fixed) entry with this signature for this property?
     pub fn known(&self, property: &str, signature: &str) -> Option<&FindingEntry> {
+        // witness hunting (never set by registered commands): treat one signature as unlisted so
+        // that it is reported, shrunk and saved like any violation
+        if std::env::var("UTPVERIF_HUNT").is_ok_and(|s| s == signature) {
+            return None;
+        }
         self.entries
             .iter()
             .find(|e| e.status == "known" && e.property == property && e.signature == signature)
     }
     /// Guards are active only while an entry is `known`.
     pub fn guard_active(&self, signature: &str) -> bool {
+        if std::env::var("UTPVERIF_NO_GUARD").is_ok() {
+            return false;
+        }
         self.entries
             .iter()
             .any(|e| e.status == "known" && e.signature == signature)
